@@ -36,9 +36,8 @@ func (f *Frame) instr(b *ssa.BasicBlock, ins ssa.Instruction, st *State) {
 			es := g.sorts.sortOf(at.Elem())
 			h := g.sorts.heapForElem(es)
 			loc := g.allocLoc(st)
-			z := g.zeroVal(at.Elem())
 			cur := g.heapGet(st, h)
-			g.heapSet(st, h, fmt.Sprintf("(store %s %s ((as const (Array Int %s)) %s))", cur, loc, es, z.Term))
+			g.heapSet(st, h, fmt.Sprintf("(store %s %s %s)", cur, loc, g.zeroArray(es)))
 			f.vals[x] = Val{Ptr: &Addr{Heap: h, Loc: loc, Base: true, N: at.Len()}, GoT: x.Type()}
 			return
 		}
@@ -52,6 +51,16 @@ func (f *Frame) instr(b *ssa.BasicBlock, ins ssa.Instruction, st *State) {
 	case *ssa.Store:
 		a := f.val(x.Addr, st)
 		v := f.val(x.Val, st)
+		if a.Ptr != nil && a.Ptr.Heap != "" && !a.Ptr.Base && len(a.Ptr.Path) == 0 && isAtomic(a.Ptr.Idx) {
+			if g.arrElems[a.Ptr.Loc] == nil {
+				g.arrElems[a.Ptr.Loc] = map[string]Val{}
+			}
+			g.arrElems[a.Ptr.Loc][a.Ptr.Idx] = v
+		}
+		if v.Term == "" && v.Ptr != nil && a.Ptr != nil && a.Ptr.Heap != "" {
+			// a static pointer stored into a local array (variadic interface arguments): only tracked statically
+			return
+		}
 		f.storeVia(a, v, st, reach, x.Pos())
 	case *ssa.UnOp:
 		f.unop(x, st, reach)
@@ -109,11 +118,7 @@ func (f *Frame) instr(b *ssa.BasicBlock, ins ssa.Instruction, st *State) {
 		f.nopanic("makeslice_len", reach, fmt.Sprintf("(and (<= 0 %s) (<= %s %s))", ln.Term, ln.Term, cp.Term), x.Pos())
 		loc := g.allocLoc(st)
 		el := g.sorts.sliceEl[s]
-		z := g.sorts.zero(el, nil)
-		if z == "" {
-			z = g.fresh("zero", el)
-		}
-		g.heapSet(st, h, fmt.Sprintf("(store %s %s ((as const (Array Int %s)) %s))", g.heapGet(st, h), loc, el, z))
+		g.heapSet(st, h, fmt.Sprintf("(store %s %s %s)", g.heapGet(st, h), loc, g.zeroArray(el)))
 		f.vals[x] = Val{Sort: s, Term: g.def(f.name(x), s, fmt.Sprintf("(mk_%s %s 0 %s %s)", s, loc, ln.Term, cp.Term)), GoT: x.Type()}
 	case *ssa.MakeMap:
 		ms := g.sorts.sortOf(x.Type())
@@ -484,6 +489,15 @@ func (g *Gen) uf(name string, args []string, res string) string {
 
 func (f *Frame) changeSort(v Val, ns string, x ssa.Value, st *State) Val {
 	g := f.g
+	if ns == "Coins" && v.Elems != nil {
+		// composite literal sdk.Coins{c1, ...}: not sanitised
+		g.useTheory("coins")
+		cur := "Coins_empty"
+		for _, e := range v.Elems {
+			cur = fmt.Sprintf("(Coins_lit_add %s %s)", cur, e.Term)
+		}
+		return Val{Sort: "Coins", Term: g.def(f.name(x), "Coins", cur), GoT: x.Type()}
+	}
 	// conversions between []Coin and Coins, and similar named slice types
 	fn := g.uf("cast_"+mangle(v.Sort)+"_to_"+mangle(ns), []string{v.Sort}, ns)
 	g.note("change of representation %s -> %s is an uninterpreted function", v.Sort, ns)
@@ -546,8 +560,47 @@ func (f *Frame) sliceOp(x *ssa.Slice, st *State, reach string) {
 			hi = n
 		}
 		s := g.sorts.sortOf(x.Type())
+		if s == "Coins" {
+			// composite literal sdk.Coins{...}
+			at := x.X.Type().Underlying().(*types.Pointer).Elem().Underlying().(*types.Array)
+			tmp := Val{Sort: g.sorts.sortOf(types.NewSlice(at.Elem())), Term: "", GoT: x.Type()}
+			em := g.arrElems[base.Ptr.Loc]
+			for i := int64(0); i < base.Ptr.N; i++ {
+				v, ok := em[fmt.Sprint(i)]
+				if !ok {
+					g.fail("%s: sdk.Coins literal with unknown elements", f.fn.Name())
+				}
+				tmp.Elems = append(tmp.Elems, v)
+			}
+			if tmp.Elems == nil {
+				tmp.Elems = []Val{}
+			}
+			f.vals[x] = f.changeSort(tmp, "Coins", x, st)
+			return
+		}
 		f.nopanic("slice_in_range", reach, fmt.Sprintf("(and (<= 0 %s) (<= %s %s) (<= %s %s))", lo, lo, hi, hi, n), x.Pos())
-		f.vals[x] = Val{Sort: s, Term: g.def(f.name(x), s, fmt.Sprintf("(mk_%s %s %s (- %s %s) (- %s %s))", s, base.Ptr.Loc, lo, hi, lo, n, lo)), GoT: x.Type()}
+		sv := Val{Sort: s, Term: g.def(f.name(x), s, fmt.Sprintf("(mk_%s %s %s (- %s %s) (- %s %s))", s, base.Ptr.Loc, lo, hi, lo, n, lo)), GoT: x.Type()}
+		if lo == "0" && hi == n {
+			if em := g.arrElems[base.Ptr.Loc]; em != nil || base.Ptr.N == 0 {
+				all := true
+				var es []Val
+				for i := int64(0); i < base.Ptr.N; i++ {
+					v, ok := em[fmt.Sprint(i)]
+					if !ok {
+						all = false
+						break
+					}
+					es = append(es, v)
+				}
+				if all {
+					sv.Elems = es
+					if sv.Elems == nil {
+						sv.Elems = []Val{}
+					}
+				}
+			}
+		}
+		f.vals[x] = sv
 	case *types.Basic: // string
 		if hi == "" {
 			hi = fmt.Sprintf("(str_len %s)", base.Term)
@@ -799,6 +852,8 @@ func (f *Frame) loopHeader(h *ssa.BasicBlock, st *State, reach string) (*State, 
 				li.havocked[hname] = true
 			case *ssa.Next:
 				li.havCells[f.iterCell(x.Iter)] = true
+			case *ssa.Call:
+				f.callEffects(x.Common(), li, 0, nil)
 			}
 		}
 	}
@@ -1002,5 +1057,200 @@ func (f *Frame) loopBackEdge(from, h *ssa.BasicBlock, cond string, st *State) {
 			g.fail("%s: pointer cell %s changes inside a loop", relName(f.fn), c.name)
 		}
 		g.oblige("frame", fmt.Sprintf("loop%d_unmodified:%s", f.loopOrd[h], c.name), f.props(), f.fn, cond, fmt.Sprintf("(= %s %s)", now.Term, before.Term), "", token.NoPos)
+	}
+}
+
+// zeroArray: the content of a freshly allocated array. Zero-initialised when
+// the element zero is an SMT value; otherwise an unconstrained array (sound
+// over-approximation; cvc5 accepts only values in constant arrays).
+func (g *Gen) zeroArray(el string) string {
+	z := g.sorts.zero(el, nil)
+	if el == "Int" || el == "Bool" {
+		return fmt.Sprintf("((as const (Array Int %s)) %s)", el, z)
+	}
+	if g.concrete && el == "Str" {
+		return "((as const (Array Int Str)) \"\")"
+	}
+	return g.fresh("newarr", "(Array Int "+el+")")
+}
+
+// callEffects over-approximates what a call inside a loop may modify (used
+// for the havoc at the loop header; the frame check at the back edge verifies
+// that nothing outside this set changed).
+func (f *Frame) callEffects(c *ssa.CallCommon, li *loopInfo, depth int, argMap map[ssa.Value]ssa.Value) {
+	g := f.g
+	resolve := func(v ssa.Value) ssa.Value {
+		for argMap != nil {
+			if m, ok := argMap[v]; ok {
+				return m
+			}
+			break
+		}
+		return v
+	}
+	if b, ok := c.Value.(*ssa.Builtin); ok {
+		switch b.Name() {
+		case "append":
+			s := g.sorts.sortOf(c.Args[0].Type())
+			if _, ok := g.sorts.sliceEl[s]; ok {
+				li.havocked[g.sorts.heapFor(s)] = true
+			}
+		case "delete":
+			ms := g.sorts.sortOf(c.Args[0].Type())
+			hname, _ := g.sorts.mapHeap(ms)
+			li.havocked[hname] = true
+		}
+		return
+	}
+	var ct *Contract
+	var names []string
+	var actuals []ssa.Value
+	var callee *ssa.Function
+	if c.IsInvoke() {
+		ct, _ = g.lookupInvokeContract(c)
+		names = []string{"recv"}
+		actuals = append(actuals, c.Value)
+		sig := c.Signature()
+		for i := 0; i < sig.Params().Len(); i++ {
+			names = append(names, sig.Params().At(i).Name())
+		}
+		actuals = append(actuals, c.Args...)
+	} else if fn := c.StaticCallee(); fn != nil {
+		callee = fn
+		ct = g.lookupContract(fn)
+		names = paramNames(fn)
+		actuals = c.Args
+	}
+	everything := func() {
+		for n := range g.w.world {
+			li.havocked[n] = true
+		}
+		for n := range g.sorts.heapUsed {
+			li.havocked[n] = true
+		}
+		for _, a := range actuals {
+			if _, ok := a.Type().Underlying().(*types.Pointer); ok {
+				f.havocTarget(resolve(a), nil, li)
+			}
+		}
+	}
+	if ct != nil && (!ct.Inline || callee == nil) {
+		if ct.ArgNames != nil {
+			names = ct.ArgNames
+		}
+		if ct.ModAll {
+			everything()
+			return
+		}
+		for _, m := range ct.Modifies {
+			switch {
+			case strings.HasPrefix(m, "W."):
+				li.havocked[m] = true
+			case strings.HasPrefix(m, "H."):
+				li.havocked[strings.TrimPrefix(m, "H.")] = true
+			default:
+				// *p, map(p), arr(p): find the parameter
+				inner := strings.TrimPrefix(m, "*")
+				inner = strings.TrimSuffix(strings.TrimPrefix(strings.TrimPrefix(inner, "map("), "arr("), ")")
+				inner = strings.TrimPrefix(inner, "*")
+				if i := strings.IndexAny(inner, ".["); i >= 0 {
+					inner = inner[:i]
+				}
+				found := false
+				for i, n := range names {
+					if (n == inner || fmt.Sprintf("arg%d", i) == inner) && i < len(actuals) {
+						found = true
+						a := resolve(actuals[i])
+						switch {
+						case strings.HasPrefix(m, "map("):
+							t := a.Type()
+							if pt, ok := t.Underlying().(*types.Pointer); ok {
+								t = pt.Elem()
+							}
+							if _, ok := t.Underlying().(*types.Map); ok {
+								hn, _ := g.sorts.mapHeap(g.sorts.sortOf(t))
+								li.havocked[hn] = true
+							}
+						case strings.HasPrefix(m, "arr("):
+							t := a.Type()
+							if pt, ok := t.Underlying().(*types.Pointer); ok {
+								t = pt.Elem()
+							}
+							if s := g.sorts.sortOf(t); g.sorts.sliceEl[s] != "" {
+								li.havocked[g.sorts.heapFor(s)] = true
+							}
+						default:
+							f.havocTarget(a, nil, li)
+						}
+					}
+				}
+				if !found {
+					everything()
+				}
+			}
+		}
+		return
+	}
+	if callee != nil && len(callee.Blocks) > 0 && depth < maxInlineDepth {
+		repo := callee.Pkg != nil && isRepoPkg(callee.Pkg.Pkg)
+		if repo || ct != nil {
+			// inlined callee: scan its body
+			am := map[ssa.Value]ssa.Value{}
+			for i, p := range callee.Params {
+				if i < len(actuals) {
+					am[p] = resolve(actuals[i])
+				}
+			}
+			for _, b := range callee.Blocks {
+				for _, ins := range b.Instrs {
+					switch x := ins.(type) {
+					case *ssa.Store:
+						root := x.Addr
+						for {
+							if fa, ok := root.(*ssa.FieldAddr); ok {
+								root = fa.X
+								continue
+							}
+							break
+						}
+						if m, ok := am[root]; ok {
+							f.havocTarget(m, nil, li)
+						} else if _, isAlloc := root.(*ssa.Alloc); !isAlloc {
+							if _, isIdx := root.(*ssa.IndexAddr); isIdx {
+								f.havocTarget(root, nil, li)
+							} else if _, ok := root.Type().Underlying().(*types.Pointer); ok {
+								f.havocTarget(root, nil, li)
+							}
+						}
+					case *ssa.MapUpdate:
+						hn, _ := g.sorts.mapHeap(g.sorts.sortOf(x.Map.Type()))
+						li.havocked[hn] = true
+					case *ssa.Call:
+						f.callEffects(x.Common(), li, depth+1, am)
+					}
+				}
+			}
+			return
+		}
+	}
+	// unmodelled: pure externals modify nothing, others everything
+	pure := true
+	for _, a := range actuals {
+		switch a.Type().Underlying().(type) {
+		case *types.Pointer, *types.Map, *types.Signature, *types.Interface:
+			pure = false
+		case *types.Slice:
+			if g.sorts.sortOf(a.Type()) != "Str" {
+				pure = false
+			}
+		case *types.Struct:
+			s := g.sorts.sortOf(a.Type())
+			if s == "Ctx" || strings.HasPrefix(s, "O_") || strings.Contains(s, "Keeper") {
+				pure = false
+			}
+		}
+	}
+	if !pure {
+		everything()
 	}
 }
